@@ -1255,7 +1255,7 @@ Lemma ex_planes : planes_old_nonperiodic (p_surfs ex_prob).
 Proof. intros s Hs _. in_cases Hs; reflexivity. Qed.
 
 Lemma ex_links : links ex_prob.
-Proof. intros c Hc. in_cases Hc; simpl; intros x Hx; simpl in Hx; intuition. Qed.
+Proof. intros c Hc. in_cases Hc; simpl; apply incl_refl. Qed.
 
 Lemma ex_in_sync : forall s, In s (p_surfs ex_prob) -> in_sync (p_surfs ex_prob) (p_trs ex_prob) s.
 Proof.
@@ -1270,21 +1270,26 @@ Definition ex_after_cells : list cell :=
     mkCell 4 [] (GAnd (GNot (GCell 3)) (GAnd (GAnd (GSurf false 10) (GSurf true 10))
                                                   (GOr (GSurf false 4) (GSurf true 4)))) ].
 
+Definition ex_after : problem := match dedup tol4 ex_prob with Ok P' => P' | Err _ => ex_prob end.
+
 Lemma ex_dedup :
-  exists P', dedup tol4 ex_prob = Ok P' /\
-             map s_num (p_surfs P') = [1; 3; 4; 6; 7; 8; 10; 12] /\ p_cells P' = ex_after_cells.
-Proof. eexists. split; [vm_compute; reflexivity|]. split; reflexivity. Qed.
+  dedup tol4 ex_prob = Ok ex_after /\
+  map s_num (p_surfs ex_after) = [1; 3; 4; 6; 7; 8; 10; 12] /\ p_cells ex_after = ex_after_cells.
+Proof. split; [vm_compute; reflexivity | split; vm_compute; reflexivity]. Qed.
 
 (* an assignment of sides that identifies the merged surfaces and makes the regions non-constant *)
-Definition ex_es (n : Z) : bool := Z.odd n || Z.eqb n 2 || Z.eqb n 10.
+Definition ex_es (n : Z) : bool := memZ n [1; 2; 3; 7; 10; 11].
+
+Lemma identifies_forall : forall m es,
+  Forall (fun kv => es (fst kv) = es (snd kv)) m -> identifies m es.
+Proof.
+  intros m es H d s. induction H as [|[k v] r Hkv _ IH]; simpl; [discriminate|].
+  destruct (Z.eqb k d) eqn:E; [|exact IH].
+  apply Z.eqb_eq in E. subst. intro H0. inversion H0; subst. exact Hkv.
+Qed.
 
 Lemma ex_identifies : identifies ex_map ex_es.
-Proof.
-  intros d s H. unfold ex_map in H. simpl in H.
-  repeat (match type of H with (if ?c then _ else _) = _ => destruct c eqn:?E end;
-          [inversion H; subst; clear H; apply Z.eqb_eq in E; subst; reflexivity|]).
-  discriminate.
-Qed.
+Proof. apply identifies_forall. repeat constructor. Qed.
 
 Lemma ex_regions :
   map (fun c => region ex_es (fun _ => false) (c_geom c)) ex_cells = [true; false; true; false] /\
